@@ -1,6 +1,8 @@
 import Xo.Props.C11
 import Xo.Lemmas.Path
 import Xo.Lemmas.RefGraphOps
+import Xo.Lemmas.PathPart
+import Xo.Lemmas.Copy
 /-! C10 — assigning one element changes that element and nothing else (property theorems only).
 Byte level, for every memory and every slot address: the assignment of a scalar or of a fitting string rewrites exactly the
 slot's bytes; combined with read locality (`C01_read_local`: a part's value depends only on the bytes of its own extent) every
@@ -109,6 +111,52 @@ theorem C10_set_leaf_again (t : Ty) (v : Val) (hw : t.WF) (hc : Conf t v)
     · simp only [hin, if_false]
       exact hm i h1 h2
 
+/-- **set a whole nested array / struct (any part) of equal size, value level**: for every reference-free type, conforming value and
+path to a part (a field, an item, nested to any depth; the empty path is the object itself): if the place of that part receives an
+image of a conforming value `v2` of the same size - and no other byte of the object changes - a view of the WHOLE enclosing object
+reads the value with exactly that part replaced (`setAt`: every other field and item at every level, every size, shape, stride and
+offset as before), and the object keeps its size -/
+theorem C10_set_part_at_path (t : Ty) (v : Val) (hw : t.WF) (hc : Conf t v) (hs : vsize t v < 2 ^ 64)
+    (m0 : Mem) (off : Nat) (hb0 : off + vsize t v ≤ m0.length) (M : Mem)
+    (hM : Agree M (apply (shift off (patchesD t v)) m0) off (off + vsize t v))
+    (p : List Nat) (o : Nat) (t' : Ty) (v1 : Val) (hp : partAt t v p = some (o, t', v1))
+    (v2 : Val) (hc2 : Conf t' v2) (hsz : vsize t' v2 = vsize t' v1)
+    (N : Mem) (hlN : N.length = m0.length)
+    (hout : ∀ i, off ≤ i → i < off + vsize t v → (i < off + o ∨ off + o + vsize t' v1 ≤ i) → N[i]? = M[i]?)
+    (m1 : Mem) (hl1 : m1.length = m0.length)
+    (hin : Agree N (apply (shift (off + o) (patchesD t' v2)) m1) (off + o) (off + o + vsize t' v1)) :
+    ∃ v', setAt t v p v2 = some v' ∧ Conf t v' ∧ vsize t v' = vsize t v ∧ readD t N off = v'.norm :=
+  set_part_rt t v hw hc hs m0 off hb0 M hM p o t' v1 hp v2 hc2 hsz N hlN hout m1 hl1 hin
+
+/-- … in the form `Struct._update` / `Array._update` perform it for an existing object of the same class and size: the BINARY COPY
+(`update_from_xbuffer`) of an object `v2` held by any memory `S` at `src` onto the part's place -/
+theorem C10_assign_part_by_copy (t : Ty) (v : Val) (hw : t.WF) (hc : Conf t v) (hs : vsize t v < 2 ^ 64)
+    (m0 : Mem) (off : Nat) (hb0 : off + vsize t v ≤ m0.length) (M : Mem) (hlM : M.length = m0.length)
+    (hM : Agree M (apply (shift off (patchesD t v)) m0) off (off + vsize t v))
+    (p : List Nat) (o : Nat) (t' : Ty) (v1 : Val) (hp : partAt t v p = some (o, t', v1))
+    (v2 : Val) (hc2 : Conf t' v2) (hsz : vsize t' v2 = vsize t' v1)
+    (s0 S : Mem) (src : Nat) (hbs : src + vsize t' v2 ≤ s0.length) (hlS : src + vsize t' v2 ≤ S.length)
+    (hS : Agree S (apply (shift src (patchesD t' v2)) s0) src (src + vsize t' v2)) :
+    ∃ v', setAt t v p v2 = some v' ∧ vsize t v' = vsize t v ∧
+      readD t (copyBytes S src (vsize t' v2) M (off + o)) off = v'.norm := by
+  obtain ⟨g1, _, g3, _⟩ := path_decomp p t v o t' v1 hw hc hp
+  have hfit : off + o + vsize t' v2 ≤ M.length := by rw [hsz, hlM]; omega
+  obtain ⟨m1, hl1, hag⟩ := copy_agree t' v2 g1 hc2 s0 src hbs S hlS hS M (off + o) hfit
+  have hrl : (readAt S src (vsize t' v2)).length = vsize t' v2 := by simp [readAt]; omega
+  have hlN : (copyBytes S src (vsize t' v2) M (off + o)).length = m0.length := by
+    unfold copyBytes
+    rw [length_writeAt _ _ _ (by rw [hrl]; exact hfit)]; exact hlM
+  obtain ⟨v', j1, _, j3, j4⟩ := set_part_rt t v hw hc hs m0 off hb0 M hM p o t' v1 hp v2 hc2 hsz
+    (copyBytes S src (vsize t' v2) M (off + o)) hlN
+    (by
+      intro i _ _ hio
+      unfold copyBytes
+      rw [getElem?_writeAt _ _ _ (by rw [hrl]; exact hfit), hrl]
+      have : ¬ (off + o ≤ i ∧ i < off + o + vsize t' v2) := by rw [hsz]; omega
+      simp [this])
+    m1 (by rw [hl1, hlM]) (by rw [← hsz]; exact hag)
+  exact ⟨v', j1, j3, j4⟩
+
 /-- **whole-node assignment with references** (node model `Xo/Model/RefGraph.lean`, component `rg`): `h._update(t)` - what assigning
 a node to a nested node field does - for two live nodes of the same class in a state satisfying the reference-graph invariant (every
 reachable state, `C08_ref_history`) allocates nothing, changes no live region's place, makes every scalar of `h` read the value `t`'s
@@ -134,5 +182,19 @@ example : leafAt (.struct [.scalar 8, .array (.scalar 4) [some 2] [0], .string])
 example : leafAt (.struct [.string, .array (.struct [.scalar 2, .string]) [none] [0], .scalar 8])
       (.struct [.str [97], .arr [2] [.struct [.bits 5, .str [1,2,3,4,5,6,7,8,9]], .struct [.bits 6, .str []]], .bits 7]) [1, 1, 0]
       = some (120, 2) := rfl
+
+/-- non-vacuity of the whole-part theorems: in `{f0: UInt64, f1: UInt32[2], f2: String}` holding `{1, [5, 6], "ab"}` the part `f1` is
+the 8 bytes at offset 16 and replacing it by `[7, 8]` gives `{1, [7, 8], "ab"}`; executed: the byte copy of a separately built `[7, 8]`
+onto that place makes a view of the whole struct read exactly that -/
+example : partAt (.struct [.scalar 8, .array (.scalar 4) [some 2] [0], .string])
+      (.struct [.bits 1, .arr [2] [.bits 5, .bits 6], .str [97, 98]]) [1] = some (16, .array (.scalar 4) [some 2] [0], .arr [2] [.bits 5, .bits 6]) := rfl
+example : setAt (.struct [.scalar 8, .array (.scalar 4) [some 2] [0], .string])
+      (.struct [.bits 1, .arr [2] [.bits 5, .bits 6], .str [97, 98]]) [1] (.arr [2] [.bits 7, .bits 8])
+      = some (.struct [.bits 1, .arr [2] [.bits 7, .bits 8], .str [97, 98]]) := rfl
+example : readD (.struct [.scalar 8, .array (.scalar 4) [some 2] [0], .string])
+      (copyBytes (apply (shift 3 (patchesD (.array (.scalar 4) [some 2] [0]) (.arr [2] [.bits 7, .bits 8]))) (List.replicate 16 0x11)) 3 8
+        (apply (shift 5 (patchesD (.struct [.scalar 8, .array (.scalar 4) [some 2] [0], .string])
+          (.struct [.bits 1, .arr [2] [.bits 5, .bits 6], .str [97, 98]]))) (List.replicate 64 0xA5)) (5 + 16)) 5
+      = .struct [.bits 1, .arr [2] [.bits 7, .bits 8], .str [97, 98]] := rfl
 
 end Lay
